@@ -82,7 +82,7 @@ HCallsFor(s, h) ==
     {[C0 EXCEPT !.op = "read", !.h = h, !.n = n] : n \in {0, 1, 3}}
     \cup {[C0 EXCEPT !.op = "readat", !.h = h, !.n = n, !.off = o] : n \in {0, 2}, o \in offs}
     \cup {[C0 EXCEPT !.op = "write", !.h = h, !.data = d] : d \in {<<1>>, <<2, 2, 2>>, <<>>}}
-    \cup {[C0 EXCEPT !.op = "writestring", !.h = h, !.data = <<3>>]}
+    \cup {[C0 EXCEPT !.op = "writestring", !.h = h, !.data = d] : d \in {<<3>>, <<>>}}
     \cup {[C0 EXCEPT !.op = "writeat", !.h = h, !.data = d, !.off = o] : o \in offs, d \in {<<3, 3>>, <<>>}}
     \* directory offsets are opaque cookies on Linux: only the rewind Seek(0, 0) is generated for directories
     \cup (IF s.h[h].dir THEN {[C0 EXCEPT !.op = "seek", !.h = h, !.off = 0, !.wh = 0]}
